@@ -188,6 +188,33 @@ def replayFacade (lines : List String) : String := Id.run do
     idx := idx + 1
   return s!"ok {idx}"
 
+/-- `adapter` session: one line `<static 0/1> <mode>` per case: the implementation performs one
+    `sstore` and answers a facade error by mode 0 own fatal, 1 own halt, 2 propagating it, 3 ignoring
+    it. Answer: what the adapter reports per the model — `ok`, `halt` or `fatal`. -/
+def replayAdapter (lines : List String) : String := Id.run do
+  let mut out : Array String := #[]
+  for l in lines do
+    match (words l).filterMap String.toNat? with
+    | [st, mode] =>
+        let s0 : Facade.FState :=
+          { j := { bal := fun _ => 1, stor := fun _ _ => 1, loaded := [] }, isStatic := st != 0, fault := none }
+        let (s1, rs) := Facade.runOps (fun _ => false) s0 [.sstore 1 0 2]
+        let failed := rs.any fun r => match r with | .err _ => true | .ok _ => false
+        let impl : Facade.Outcome :=
+          if !failed then .ok 0
+          else match mode with
+            | 0 => .fatal 7
+            | 1 => .halt 9
+            | 2 => (match rs.head? with
+                | some (.err (.halt w)) => .halt w
+                | some (.err (.fatal w)) => .fatal w
+                | _ => .ok 0)
+            | _ => .ok 0
+        out := out.push (match Facade.adapter s1 impl with
+          | .ok _ => "ok" | .halt _ => "halt" | .fatal _ => "fatal")
+    | _ => out := out.push "bad-op"
+  return ";".intercalate out.toList
+
 /-- `gate` session: one line `<disable 0/1> <txNonce> <stateNonce>` per case; answers
     `<committed|fallback> <reason or ->` from `Commit.nonceGate` / `Commit.nonceInvalid`. -/
 def replayGate (lines : List String) : String := Id.run do
